@@ -11,20 +11,22 @@ git -C /repo worktree add -q --detach $wt HEAD || exit 2
 ( cd $wt && git apply /verif/seeded/$id/patch.diff ) || { echo "patch does not apply"; git -C /repo worktree remove --force $wt; exit 2; }
 head=$(git -C /repo rev-parse --short HEAD)
 alt=$(python3 -c "import hashlib;print('-alt'+hashlib.sha1(b'$wt').hexdigest()[:8])")
-res="[]"
+tmpd=$(mktemp -d)
 for c in "$@"; do
-  out=$(VERIF_REPO=$wt ./check $c --tier ${TIER:-quick} 2>/dev/null); rc=$?
-  sigs=$(echo "$out" | grep -E "^  violation signature=" | sed -E 's/^  violation signature=([^ ]+) count=([0-9]+).*/\1/' | head -12 | python3 -c "import sys,json;print(json.dumps([l.strip() for l in sys.stdin if l.strip()]))")
-  nv=$(echo "$out" | grep -c "^VIOLATION")
-  res=$(python3 -c "
-import json,sys
-r=json.loads('''$res'''); r.append({'check':'$c','tier':'${TIER:-quick}','exit':$rc,'violations':$nv,'signatures':json.loads('''$sigs'''),'detected':$rc==1})
-print(json.dumps(r))")
-  echo "$id vs $c: exit=$rc violations=$nv"
+  VERIF_REPO=$wt ./check $c --tier ${TIER:-quick} > $tmpd/$c.out 2>/dev/null; echo $? > $tmpd/$c.rc
+  echo "$id vs $c: exit=$(cat $tmpd/$c.rc) violations=$(grep -c '^VIOLATION' $tmpd/$c.out)"
 done
-python3 - <<PY
-import json
-json.dump({"seed":"$id","repo_head":"$head","runs":json.loads('''$res''')}, open("/verif/seeded/$id/checks.json","w"), indent=1)
+python3 - "$id" "$head" "${TIER:-quick}" "$tmpd" "$@" <<'PY'
+import json, re, sys, os
+sid, head, tier, tmpd, checks = sys.argv[1], sys.argv[2], sys.argv[3], sys.argv[4], sys.argv[5:]
+runs = []
+for c in checks:
+    out = open(os.path.join(tmpd, c + ".out"), errors="replace").read()
+    rc = int(open(os.path.join(tmpd, c + ".rc")).read().strip())
+    sigs = [m.group(1) for m in re.finditer(r"^  violation signature=(.*?) count=\d+ example=", out, re.M)][:12]
+    runs.append({"check": c, "tier": tier, "exit": rc, "violations": len(re.findall(r"^VIOLATION", out, re.M)), "signatures": sigs, "detected": rc == 1})
+json.dump({"seed": sid, "repo_head": head, "runs": runs}, open(f"/verif/seeded/{sid}/checks.json", "w"), indent=1, ensure_ascii=False)
 PY
+rm -rf $tmpd
 git -C /repo worktree remove --force $wt
 rm -rf /verif/.cache/*$alt
